@@ -157,7 +157,8 @@ pub enum Op {
     /// `spelling` (relative runs only): how the client spells the path — 0 the bare file name,
     /// 1 `./name`, 2 `sub/../name` (a real directory: same file), 3 `link/../name` where `link` is
     /// a symbolic link to a directory elsewhere (the kernel resolves `..` from the link's target:
-    /// ANOTHER file of that name), 4 the absolute path, 5 the absolute path through `link/..`.
+    /// ANOTHER file of that name), 4 the absolute path, 5 the absolute path through `link/..`, 6 `~x/../name` (a real directory
+    /// whose name starts with a tilde: same file).
     Load {
         client: usize,
         plan: Plan,
@@ -689,7 +690,7 @@ pub fn generate(seed: u64, run_index: u64, infos: &[PoolInfo]) -> Scenario {
             } else if away {
                 *rng.pick(&[0u8, 0, 1, 4, 5])
             } else {
-                *rng.pick(&[0u8, 0, 1, 2, 3, 3, 4, 5])
+                *rng.pick(&[0u8, 0, 1, 2, 3, 3, 4, 5, 6])
             };
             ops.push(Op::Load { client, plan, must_succeed: false, spelling });
             loads += 1;
